@@ -51,15 +51,16 @@ MatPlacements == {[dx |-> a, dy |-> b, ws |-> 8, hs |-> 16, wt |-> 16, ht |-> 8]
 VpscHolds(cs, ia, ib, d) == \A i \in DOMAIN cs : LET pos(ix) == IF ix = ia THEN 0 ELSE d
                                                      diff == pos(cs[i][2]) - pos(cs[i][1])
                                                  IN  IF cs[i][4] THEN diff = cs[i][3] ELSE diff >= cs[i][3]
+\* (every tag is a pair <<name, transform or -1>>: TLC cannot hold strings and tuples in one set)
 Tags(r) ==
-    (IF r.gap[1] = 0 /\ \E p \in Placements : Sat(p, r.base, 0) # DocSat(p, r.sd, r.st, r.gt, r.gap[2], 0) THEN {"addSep-does-not-mean-what-is-documented"} ELSE {})
+    (IF r.gap[1] = 0 /\ \E p \in Placements : Sat(p, r.base, 0) # DocSat(p, r.sd, r.st, r.gt, r.gap[2], 0) THEN {<<"addSep-does-not-mean-what-is-documented", -1>>} ELSE {})
     \cup {<<"transform-does-not-commute-with-geometry", k - 1>> : k \in {k \in 1..7 : \E p \in Placements : Sat(p, r.base, 0) # Sat(T(k - 1, p), r.tf[k], 0)}}
     \cup (IF Data.compose /\ \E k1 \in 0..6, k2 \in 0..6 : \E p \in Placements : Sat(p, r.base, 0) # Sat(T(k2, T(k1, p)), r.tf2[k1 * 7 + k2 + 1], 0)
-          THEN {"composition-does-not-commute"} ELSE {})
-    \cup (IF \E k \in 1..7 : r.pow[k] # r.base THEN {"four-quarter-turns-or-two-flips-do-not-restore"} ELSE {})
+          THEN {<<"composition-does-not-commute", -1>>} ELSE {})
+    \cup (IF \E k \in 1..7 : r.pow[k] # r.base THEN {<<"four-quarter-turns-or-two-flips-do-not-restore", -1>>} ELSE {})
     \cup (IF \E i \in DOMAIN r.mat : LET m == r.mat[i] IN
               \E p \in MatPlacements : (VpscHolds(m.cx, m.ia, m.ib, p.dx) /\ VpscHolds(m.cy, m.ia, m.ib, p.dy)) # Sat(p, r.base, 4 * m.extra)
-          THEN {"generated-vpsc-constraints-not-equivalent"} ELSE {})
+          THEN {<<"generated-vpsc-constraints-not-equivalent", -1>>} ELSE {})
 VARIABLES k, phase, bad
 vars == <<k, phase, bad>>
 Init == k \in 0..(NChunks - 1) /\ phase = "todo" /\ bad = {}
